@@ -1,6 +1,7 @@
 #!/bin/sh
 # usage: tools/try_seed.sh <patch.diff> <property>...   — applies a seeded change to /repo, runs the checks, reverts.
 patch="$1"; shift
+export VERIF_EVIDENCE_DIR=/verif/out/matrix_evidence
 cd /repo || exit 2
 if ! git diff --quiet; then echo "/repo dirty"; exit 2; fi
 if ! git apply --check "$patch" 2>/dev/null; then echo "PATCH DOES NOT APPLY: $patch"; exit 3; fi
